@@ -12,7 +12,7 @@ import ast
 import os
 
 from .canon import REFDIR, _functions
-from .srcmodel import unparse, dotted
+from .srcmodel import unparse, dotted, clone
 
 KINDS = {
     'int': 'i8', 'np.int64': 'i8', 'np.int_': 'i8', 'np.intp': 'i8', 'np.longlong': 'i8', 'numpy.int64': 'i8', 'nb.int64': 'i8', 'numba.int64': 'i8',
@@ -113,6 +113,101 @@ def allocations(fn):
     return out
 
 
+def _local_defs(fn, lineno):
+    """name -> value for names whose reaching definition at `lineno` is an earlier sibling statement `name = value` of the innermost
+    block containing that line, with no other store to the name in between."""
+    out = {}
+
+    def blocks(node):
+        for f in ('body', 'orelse', 'finalbody'):
+            b = getattr(node, f, None)
+            if isinstance(b, list) and b and isinstance(b[0], ast.stmt):
+                yield b
+        for h in getattr(node, 'handlers', []) or []:
+            yield h.body
+
+    def find(stmts):
+        for i, st in enumerate(stmts):
+            if st.lineno <= lineno <= getattr(st, 'end_lineno', st.lineno):
+                for b in blocks(st):
+                    if b[0].lineno <= lineno <= getattr(b[-1], 'end_lineno', b[-1].lineno):
+                        r = find(b)
+                        if r is not None:
+                            return r
+                return stmts, i
+        return None
+    hit = find(fn.body)
+    if hit is None:
+        return out
+    stmts, i = hit
+    killed = set()
+    for st in reversed(stmts[:i]):
+        st_stores = {n.id for n in ast.walk(st) if isinstance(n, ast.Name) and isinstance(n.ctx, ast.Store)}
+        if isinstance(st, ast.Assign) and len(st.targets) == 1 and isinstance(st.targets[0], ast.Name):
+            k = st.targets[0].id
+            if k not in killed and k not in out:
+                out[k] = st.value
+        killed |= st_stores
+    return out
+
+
+def _norm_expr(text, fn, lineno=None):
+    """Normal form of a data-dependent dtype expression, so that two spellings of the same lookup compare equal: local names
+    assigned exactly once in the function are replaced by their value, `{k: v(k) for k in X}[i]` becomes v(i) and
+    `(A if c else B)[i]` becomes `A[i] if c else B[i]`."""
+    try:
+        node = ast.parse(text, mode='eval').body
+    except SyntaxError:
+        return text
+    stores, vals = {}, {}
+    for n in ast.walk(fn):
+        if isinstance(n, ast.Name) and isinstance(n.ctx, ast.Store):
+            stores[n.id] = stores.get(n.id, 0) + 1
+        if isinstance(n, ast.Assign) and len(n.targets) == 1 and isinstance(n.targets[0], ast.Name):
+            vals.setdefault(n.targets[0].id, []).append(n.value)
+    for c in ast.walk(fn):
+        if isinstance(c, (ast.ListComp, ast.SetComp, ast.GeneratorExp, ast.DictComp)):
+            for g in c.generators:
+                for t in ast.walk(g.target):
+                    if isinstance(t, ast.Name):
+                        stores[t.id] = stores.get(t.id, 0) - 1       # comprehension variables are not function locals
+    defs = {k: v[0] for k, v in vals.items() if len(v) == 1 and stores.get(k) == 1}
+    if lineno is not None:
+        for k, v in _local_defs(fn, lineno).items():
+            defs.setdefault(k, v)
+
+    class N(ast.NodeTransformer):
+        depth = 0
+
+        def visit_Name(self, n):
+            if isinstance(n.ctx, ast.Load) and n.id in defs and self.depth < 8:
+                self.depth += 1
+                r = self.visit(clone(defs[n.id]))
+                self.depth -= 1
+                return r
+            return n
+
+        def visit_Subscript(self, n):
+            n = self.generic_visit(n)
+            v = n.value
+            if isinstance(v, ast.DictComp) and len(v.generators) == 1 and not v.generators[0].ifs and isinstance(v.generators[0].target, ast.Name) \
+                    and isinstance(v.key, ast.Name) and v.key.id == v.generators[0].target.id:
+                k = v.key.id
+                idx = n.slice
+
+                class S(ast.NodeTransformer):
+                    def visit_Name(s_, m):
+                        return clone(idx) if m.id == k and isinstance(m.ctx, ast.Load) else m
+                return S().visit(clone(v.value))
+            if isinstance(v, ast.IfExp):
+                return ast.IfExp(test=v.test, body=ast.Subscript(value=v.body, slice=n.slice, ctx=ast.Load()),
+                                 orelse=ast.Subscript(value=v.orelse, slice=n.slice, ctx=ast.Load()))
+            return n
+    out = N().visit(clone(node))
+    out = N().visit(out)          # a second pass: the substitutions can expose another redex
+    return unparse(ast.fix_missing_locations(out))
+
+
 _REF_CACHE = {}
 
 
@@ -149,6 +244,8 @@ def element_type_rule(chk, files, rule, scope_of):
                 for i, (a, b) in enumerate(zip(ck, rk)):
                     n_sites += 1
                     node = ca[name][i][1]
+                    if a != b and a.startswith('expr:') and b.startswith('expr:') and _norm_expr(a[5:], cur[q], node.lineno) == _norm_expr(b[5:], ref[q], ra[name][i][1].lineno):
+                        a = b
                     chk.check(a == b, rule, rel, q, f'{name}: element type {b}', unparse(node.value)[:60],
                               f'{name} = {unparse(node.value)[:70]}: element type is now {a}, reviewed {b} ({unparse(ra[name][i][1].value)[:60]}): '
                               'values stored in it are converted (rounded, truncated, wrapped or widened) on the way through', node=node, nontrivial=False)
